@@ -75,12 +75,12 @@ def check_case(G, R, case):
         if not vals_ok:
             G.violation(("zero_value",), "sample:zero_value:%s" % cid,
                         "zero total weight or zero density must give zero SLDs", case, repr(got), 0)
-        for name, g in zip(NAMES, got):
-            if np.shape(g) != want_shape:
-                G.violation(("zero_shape", name), "sample:zero_shape:%s:%s" % (name, cid),
-                            "with zero total weight or zero density the %s returned for a vector of %d wavelengths is "
-                            "not shaped like the wavelength argument" % (name, len(lams)), case,
-                            list(np.shape(g)), list(want_shape))
+        shapes = [list(np.shape(g)) for g in got]
+        if any(sh != list(want_shape) for sh in shapes):
+            G.violation(("zero_shape",), "sample:zero_shape:%s" % cid,
+                        "with zero total weight or zero density the zeros returned for a vector of %d wavelengths are "
+                        "scalars, not shaped like the wavelength argument" % len(lams), case,
+                        dict(zip(NAMES, shapes)), list(want_shape))
         return
     shape_ok = True
     for name, g in zip(NAMES, got):
